@@ -47,6 +47,17 @@ void h_dispatch(void)
 #endif
 }
 
+/* two experiments one after the other in the same program: the second must again run each of ITS trials once */
+void h_dispatch_twice(void)
+{
+    for (uint64_t i = 0; i <= NTRIALS; i++) { exp_arr[i].id = i; exp_arr[i].runs = 0; }
+    cimba_run_experiment(exp_arr, NTRIALS, sizeof(struct trial), trial_func);
+    for (uint64_t i = 0; i < NTRIALS; i++) sym_assert(exp_arr[i].runs == 1, "every trial has run exactly once when the experiment returns");
+    uint64_t n2 = NTRIALS > 1 ? NTRIALS - 1 : 1;
+    cimba_run_experiment(exp_arr, n2, sizeof(struct trial), trial_func);
+    for (uint64_t i = 0; i < NTRIALS; i++) sym_assert(exp_arr[i].runs == (i < n2 ? 2u : 1u), "a second experiment runs each of its trials exactly once");
+}
+
 /* the documented variant: no common function, each trial struct starts with its own function pointer */
 struct ftrial { cimba_trial_func *fn; uint64_t id; uint64_t runs; };
 static struct ftrial fexp[NTRIALS];
@@ -91,7 +102,7 @@ static void run_sim(struct sim *s, int variant)
     cmb_process_terminate(a); cmb_process_destroy(a); cmb_process_terminate(b); cmb_process_destroy(b);
     cmb_resource_destroy(res);
     cmb_event_queue_terminate();
-    cmb_random_terminate();
+    if (!variant) cmb_random_terminate();         /* the other trial leaves its generator state (and bit cache) behind */
 }
 
 void h_isolation(void)
@@ -112,4 +123,4 @@ void h_isolation(void)
 #endif
 }
 
-const struct sym_entry sym_entries[] = { {"h_dispatch", h_dispatch}, {"h_dispatch_perfn", h_dispatch_perfn}, {"h_isolation", h_isolation}, {0, 0} };
+const struct sym_entry sym_entries[] = { {"h_dispatch", h_dispatch}, {"h_dispatch_perfn", h_dispatch_perfn}, {"h_dispatch_twice", h_dispatch_twice}, {"h_isolation", h_isolation}, {0, 0} };
